@@ -446,3 +446,42 @@ theorem new_liveOnly {s : State} (hp : PoolInv s) (hl : LiveOnly s) (k : Kind) (
   exact ⟨hmono _ this.1, hmono _ this.2⟩
 
 end Pyx.Meta
+
+namespace Pyx.Meta
+
+/-- reading the class's own id attribute (no association formalises it) -/
+theorem getAttr_own (sch : Schema) (at_ : Attrs) (s : State) (f : Nat) (x : Inst) (name : String)
+    (h : formalFrom (s.kindOf x) name 0 sch = []) :
+    getAttr sch at_ s (f + 1) x name = if at_.idName (s.kindOf x) = some name then some (s.idOf x) else none := by
+  simp [getAttr, h]
+
+/-- a referential attribute formalised by exactly one association reads as the identifying attribute of
+    the linked instance, and as unset when unlinked -/
+theorem getAttr_single (sch : Schema) (at_ : Attrs) (s : State) (f : Nat) (x : Inst) (name pk : String) (i : Nat)
+    (h : formalFrom (s.kindOf x) name 0 sch = [(i, pk)]) :
+    getAttr sch at_ s (f + 2) x name =
+      match ((s.links i).tgt x).head? with
+      | some other => getAttr sch at_ s f other pk
+      | none => none := by
+  simp only [getAttr, h, List.reverse_cons, List.reverse_nil, List.nil_append, readLayers]
+  cases ((s.links i).tgt x).head? <;> rfl
+
+/-- a referential attribute shared by two associations (the later definition is consulted first): the
+    value comes from the later one when linked across it, else from the earlier one -/
+theorem getAttr_shared (sch : Schema) (at_ : Attrs) (s : State) (f : Nat) (x : Inst) (name pk1 pk2 : String) (i1 i2 : Nat)
+    (h : formalFrom (s.kindOf x) name 0 sch = [(i1, pk1), (i2, pk2)]) :
+    getAttr sch at_ s (f + 3) x name =
+      match ((s.links i2).tgt x).head? with
+      | some other => getAttr sch at_ s (f + 1) other pk2
+      | none =>
+        match ((s.links i1).tgt x).head? with
+        | some other => getAttr sch at_ s f other pk1
+        | none => none := by
+  simp only [getAttr, h, List.reverse_cons, List.reverse_nil, List.nil_append, List.cons_append, readLayers]
+  cases ((s.links i2).tgt x).head? with
+  | some o => rfl
+  | none =>
+    simp only
+    cases ((s.links i1).tgt x).head? <;> rfl
+
+end Pyx.Meta
